@@ -64,9 +64,14 @@ func runSolver(ctx context.Context, s solverSpec, script string, timeoutSec int)
 	_ = cmd.Run()
 	ms = time.Since(t0).Milliseconds()
 	out = ob.String()
-	first := strings.TrimSpace(out)
-	if i := strings.Index(first, "\n"); i >= 0 {
-		first = strings.TrimSpace(first[:i])
+	first := ""
+	for _, ln := range strings.Split(out, "\n") {
+		ln = strings.TrimSpace(ln)
+		if ln == "" || strings.HasPrefix(ln, "WARNING") || strings.HasPrefix(ln, ";") {
+			continue
+		}
+		first = ln
+		break
 	}
 	switch first {
 	case "unsat", "sat", "unknown":
